@@ -34,7 +34,7 @@ Definition m_b64 (s : bytes) : bool := opt_bytes_eqb (b64_decode (b64_encode s))
 Definition m_uri (s : bytes) : bool := opt_bytes_eqb (fql_decode_uri (query_escape s)) s.
 Definition m_html (s : bytes) : bool := bytes_eqb (html_unescape (html_escape s)) s.
 Definition m_split (s sep : bytes) : bool :=
-  match split sep s with Some l => bytes_eqb (join sep l) s | None => false end.
+  match str_split sep s with Some l => bytes_eqb (str_join sep l) s | None => false end.
 Definition m_upper (s : bytes) : bool :=
   let a := go_to_upper upper_table s in bytes_eqb (go_to_upper upper_table a) a.
 Definition m_lower (s : bytes) : bool :=
